@@ -431,8 +431,9 @@ func (f *Frame) builtin(b *ssa.Builtin, c *ssa.CallCommon, res *ssa.Call, pos to
 		case *types.Basic:
 			t = S("slen", a)
 		case *types.Map:
-			_, _, kl := vc.mapKeys(at)
+			_, kd, kl := vc.mapKeys(at)
 			t = Ite(S("=", a, "0"), "0", S("select", f.get(f.cur, kl), a))
+			vc.assume(mapLenFact(vc, at, a, f.get(f.cur, kl), f.get(f.cur, kd)))
 		case *types.Array:
 			t = fmt.Sprint(at.Len())
 		case *types.Pointer:
